@@ -195,10 +195,12 @@ pub(crate) trait ProtocolRequestBuilder {
 #[async_trait]
 impl ProtocolRequestBuilder for crate::Request {
     async fn into_protocol_request(mut self) -> crate::Result<HttpRequest> {
-        let body = if self.is_empty() == Some(false) {
-            self.take_body().into_bytes().await?
-        } else {
+        // Only skip reading the body when it is known to be empty: a body of unknown
+        // length (`is_empty() == None`, e.g. one created from a reader) still has to be read.
+        let body = if self.is_empty() == Some(true) {
             vec![]
+        } else {
+            self.take_body().into_bytes().await?
         };
 
         let mut headers: Vec<HttpHeader> = self
